@@ -128,7 +128,7 @@ class Contract:
         vals.update(kwargs)
         return vals
 
-    def apply(self, ip: Interp, st: State, f: FnVal, args, kwargs, site=None):
+    def apply(self, ip: Interp, st: State, f: FnVal, args, kwargs, site=None, check_pre=True):
         vals = self.bind(f, args, kwargs)
         self_obj = None
         if self.self_shape is not None:
@@ -137,7 +137,10 @@ class Contract:
         a = View(vals)
         where = f"call-pre@{f.ref.qualname}:{(site or '').split(':')[-1]}"
         pre = self.requires(self_obj, a) if self_obj is not None else self.requires(a)
-        st.oblige(f"{ip.task.name}/{where}", pre if isinstance(pre, (SBool, bool)) else mk_bool(V._zb(pre)), "call-pre")
+        if check_pre:
+            st.oblige(f"{ip.task.name}/{where}", pre if isinstance(pre, (SBool, bool)) else mk_bool(V._zb(pre)), "call-pre")
+        else:
+            st.assume(pre if isinstance(pre, (SBool, bool)) else mk_bool(V._zb(pre)))
         # exceptional outcomes
         excs = list(self.raises)
         riff = getattr(self, "raises_iff", None)
@@ -160,6 +163,22 @@ class Contract:
                 for _label, fml in self._gen(self.on_raise(old, self_obj, a, exc) if self_obj is not None else self.on_raise(a, exc)):
                     st.assume(fml)
                 raise PyRaise(exc)
+        memo_key = None
+        if getattr(self, "deterministic", False):
+            from .protocol import encode_arg
+
+            def enc(v):
+                try:
+                    return ",".join(t.sexpr() for t in encode_arg(st, v))
+                except Unsupported:
+                    return f"id{id(v)}"
+
+            memo_key = (self.target, tuple(enc(vals[k]) for k in sorted(vals)),
+                        tuple(enc(v) for _k, v in sorted(self_obj.fields.items())) if self_obj is not None else (),
+                        tuple(sorted(st.ghost.get("ver", {}).items())))
+            hit = st.ghost.setdefault("memo", {}).get(memo_key)
+            if hit is not None:
+                return hit[0]
         old = self_obj.snapshot() if self_obj is not None else None
         saved_trace = None
         if self_obj is not None:
@@ -187,7 +206,26 @@ class Contract:
             self_obj.trace.clear()
             self_obj.trace.extend(saved_trace + delta)
         ip.task.used_contracts.add(self.target)
+        if memo_key is not None:
+            st.ghost["memo"][memo_key] = (result,)
         return result
+
+    def spec_value(self, self_obj, **vals):
+        """Contract-side: the value a (deterministic) call would return in the current state."""
+        st = V.cur()
+
+        class _T:  # minimal task/interp stand-in for apply()
+            pass
+
+        ip = _T()
+        ip.task = _T()
+        ip.task.name = "spec"
+        ip.task.used_contracts = set()
+        ref = SRC.resolve(self.target)
+        f = FnVal(ref)
+        n0 = len(st.ex.obligations)
+        args = [self_obj] if self_obj is not None else []
+        return self.apply(ip, st, f, args, vals, site="spec", check_pre=False)
 
     def havoc(self, st, obj: SObj):
         for name in self.modifies:
@@ -436,9 +474,13 @@ class VerifyTask:
                 st.oblige(f"{self.name}/class-inv@raise", inv(self_obj), "invariant")
             return
         st.cover(f"{self.name}/cover@exit")
+        # spec queries in postconditions refer to the children as they were at entry
+        st.ghost["ver_post"] = dict(st.ghost.get("ver", {}))
+        st.ghost["ver"] = {}
         ens = c.ensures(old, self_obj, a, result) if self_obj is not None else c.ensures(a, result)
         for label, fml in c._gen(ens):
             st.oblige(f"{self.name}/post/{label}", fml, "post")
+        st.ghost["ver"] = dict(st.ghost["ver_post"])
         if inv is not None and self_obj is not None:
             st.oblige(f"{self.name}/class-inv@exit", inv(self_obj), "invariant")
 
